@@ -235,6 +235,14 @@ def apply(m, mut):
             new = old.replace(") (", ")  (")
         elif kind == "precision":
             new = old.replace("(64 11 52 0 1 12 0 1023)", "(32 8 23 0 1 9 0 127)")
+        elif kind == "bytes4":            # the size in the byte-order part of the descriptor
+            new = old.replace(")),(8, (", ")),(4, (", 1)
+        elif kind == "realsize4":         # the size in the format part
+            new = old.replace("FAB ((8, (", "FAB ((4, (", 1)
+        elif kind == "single":            # a complete single-precision descriptor in front of double-precision data
+            new = old.replace("((8, (64 11 52 0 1 12 0 1023)),(8, (8 7 6 5 4 3 2 1)))", "((8, (32 8 23 0 1 9 0 127)),(4, (4 3 2 1)))", 1)
+        elif kind == "byteorder":         # the byte order list reversed
+            new = old.replace("(8 7 6 5 4 3 2 1)", "(1 2 3 4 5 6 7 8)", 1)
         elif kind == "prefix_damaged":
             new = "XXX" + old[3:]
         elif kind == "prefix_cut":
@@ -433,7 +441,7 @@ def singles(model, coords=False, textual=False):
                 out.append(["fabhdr", lv, fn, k, "nc+1", 0])
                 out.append(["fabhdr", lv, fn, k, "nc-1", 0])
                 if textual:
-                    for kind in ("extra_blanks", "precision", "prefix_damaged", "prefix_cut", "tab"):
+                    for kind in ("extra_blanks", "precision", "bytes4", "realsize4", "single", "byteorder", "prefix_damaged", "prefix_cut", "tab"):
                         out.append(["fabhdr_text", lv, fn, k, kind])
         for b in range(L["nb"]):
             for d in range(nd):
